@@ -9,3 +9,4 @@ def run(ck):
     region.r2_failure_protocol(ck, P)
     region.r3_conversions(ck, P)
     region.r15_4_sentinels(ck, P)
+    region.r5_4_success_writes_result(ck, P)
